@@ -15,7 +15,7 @@ def main():
     real_stdout = sys.stdout
     sys.stdout = sys.stderr
     from sx import api, instr
-    instr.install()
+    instr.install(("btclib", "harness", "refs"))
     api._install_explorer_api()
     from sx import job
     for line in sys.stdin:
